@@ -17,6 +17,7 @@ fn main() {
         "damage" => shpverif::cmd_damage::run(&a),
         "crash" => shpverif::cmd_crash::run(&a),
         "faults" => shpverif::cmd_faults::run(&a),
+        "foreign" => shpverif::cmd_foreign::run(&a),
         c => {
             eprintln!("unknown command {}", c);
             std::process::exit(2);
